@@ -54,14 +54,14 @@ impl MetaVal {
             MetaVal::V2(v, r) => TV::Table(vec![("version".into(), TV::Str(v.clone())), ("rev".into(), TV::Int(*r))]),
         }
     }
-    fn to_json(&self) -> Value {
+    pub fn to_json(&self) -> Value {
         match self {
             MetaVal::Generic(t) => json!({"generic": t.to_json()}),
             MetaVal::V1(v) => json!({"v1": v}),
             MetaVal::V2(v, r) => json!({"v2": [v, r]}),
         }
     }
-    fn from_json(v: &Value) -> MetaVal {
+    pub fn from_json(v: &Value) -> MetaVal {
         if let Some(g) = v.get("generic") {
             MetaVal::Generic(TV::from_json(g))
         } else if let Some(s) = v.get("v1") {
@@ -81,7 +81,7 @@ pub fn seen_as(m: MType, stored: &Option<TV>) -> Option<Option<TV>> {
     }
 }
 
-trait MetaT: Serialize + DeserializeOwned + Clone + 'static {
+pub trait MetaT: Serialize + DeserializeOwned + Clone + 'static {
     fn to_seen(&self) -> Option<TV>;
     fn from_val(v: &MetaVal) -> Self;
 }
@@ -118,7 +118,7 @@ impl MetaT for V2 {
 }
 
 /// the value a Replace decision writes, as the table it becomes on disk (depends on the request's metadata type)
-fn replace_tv(m: MType, v: &MetaVal) -> TV {
+pub fn replace_tv(m: MType, v: &MetaVal) -> TV {
     match m {
         MType::Generic => GenericMetadata::from_val(v).to_seen().unwrap(),
         MType::V1 => V1::from_val(v).to_seen().unwrap(),
@@ -155,7 +155,7 @@ pub enum Op {
     Restore,
 }
 
-fn mtype_name(m: MType) -> &'static str {
+pub fn mtype_name(m: MType) -> &'static str {
     match m {
         MType::Generic => "generic",
         MType::V1 => "v1",
@@ -626,11 +626,11 @@ pub fn run_history(scratch: &Path, h: &[Op], names: &[&str]) -> HistOutcome {
 
 // ---------------- generators ----------------
 
-fn small_bytes() -> impl Strategy<Value = Vec<u8>> {
+pub fn small_bytes() -> impl Strategy<Value = Vec<u8>> {
     prop_oneof![Just(vec![]), Just(b"{}".to_vec()), proptest::collection::vec(any::<u8>(), 1..10)]
 }
 
-fn metaval_strategy() -> impl Strategy<Value = MetaVal> {
+pub fn metaval_strategy() -> impl Strategy<Value = MetaVal> {
     prop_oneof![
         2 => prop_oneof![Just("1.0".to_string()), Just(String::new()), Just("2 \"q\"".to_string())].prop_map(MetaVal::V1),
         2 => (prop_oneof![Just("1.0".to_string()), Just("x".to_string())], prop_oneof![Just(0i64), Just(-7i64), Just(i64::MAX)]).prop_map(|(v, r)| MetaVal::V2(v, r)),
@@ -654,7 +654,7 @@ fn rdec_strategy() -> impl Strategy<Value = RDec> {
 fn idec_strategy() -> impl Strategy<Value = IDec> {
     (proptest::option::weighted(0.5, metaval_strategy()), cause_strategy(), any::<bool>(), proptest::bool::weighted(0.1)).prop_map(|(replace, cause, wrap, err)| IDec { replace, cause, wrap: wrap || err, err })
 }
-fn mtype_strategy() -> impl Strategy<Value = MType> {
+pub fn mtype_strategy() -> impl Strategy<Value = MType> {
     prop_oneof![Just(MType::Generic), Just(MType::V1), Just(MType::V2)]
 }
 
